@@ -1013,7 +1013,8 @@ def fn_stat_ball(case, ctx):
 T_IN = st.one_of(st.sampled_from([0.0, 1.0, 0.5, 0.25, 0.75, 0, 1, 1e-9, 1 - 1e-9, 5e-324, 2.220446049250313e-16, 0.9999999999999999,
                                   0.5000000000000001, 8e-6, 0.999992]),
                  st.floats(0.0, 1.0, allow_nan=False).map(sig6))
-T_OUT = st.one_of(st.sampled_from([-1e-9, 1.000000001, -1.0, 2.0, -0.5, 1.5, -1, 2, float("nan"), float("inf"), float("-inf"), 1e300, -1e-300]),
+T_OUT = st.one_of(st.sampled_from([-1e-9, 1.000000001, -1.0, 2.0, -0.5, 1.5, -1, 2, float("nan"), float("inf"), float("-inf"), 1e300, -1e-300,
+                                   1.0000000000000002, -5e-324]),
                   st.floats(1.0, 10.0, exclude_min=True), st.floats(-10.0, 0.0, exclude_max=True).filter(lambda x: x < 0))
 
 
@@ -1038,6 +1039,56 @@ def control_net(rnd, shape):
 
 CTORS = ["list", "numpy", "vec", "generator"]
 
+# parameters outside [0,1] as plain values (drawn through the case PRNG; never rounded, so that they stay outside)
+T_OUT_VALUES = [-1e-9, 1.000000001, -1.0, 2.0, -0.5, 1.5, -1, 2, float("nan"), float("inf"), float("-inf"), 1e300, -1e-300,
+                1.0000000000000002, -5e-324, 1.001, -0.25, 3, -3.0, 4.0]
+T_IN_VALUES = [0.0, 1.0, 0.5, 0.25, 0.75, 0, 1, 1e-9, 1 - 1e-9, 0.9999999999999999, 0.125, 1 / 3]
+CUSTOM_FORMS = ["list", "list", "tuple", "numpy", "generator", "numpy-scalars"]
+
+
+def outside(t):
+    """the statement's 'parameter outside [0,1]' (nan included: it is not inside)"""
+    return not (0.0 <= t <= 1.0)
+
+
+def rnd_out(rnd):
+    c = rnd.random()
+    if c < 0.6:
+        return rnd.choice(T_OUT_VALUES)
+    x = 10.0 ** rnd.uniform(-9.0, 1.0)           # distance beyond the end: 1e-9 .. 10
+    t = 1.0 + x if c < 0.8 else -x
+    assert outside(t)
+    return t
+
+
+def rnd_in(rnd):
+    return rnd.choice(T_IN_VALUES) if rnd.random() < 0.5 else sig6(rnd.random())
+
+
+def bad_params(rnd, max_good=5):
+    """a parameter sequence of which at least one entry (first / middle / last / several / all) lies outside [0,1]"""
+    where = rnd.choice(["first", "middle", "last", "last", "several", "all"])
+    n = rnd.randint(1, max_good + 1) if where != "middle" else rnd.randint(3, max_good + 1)
+    ts = sorted(rnd_in(rnd) for _ in range(n)) if rnd.random() < 0.6 else [rnd_in(rnd) for _ in range(n)]
+    idx = {"first": [0], "last": [n - 1], "middle": [rnd.randrange(1, max(n - 1, 2))], "all": list(range(n)),
+           "several": sorted(set(rnd.randrange(n) for _ in range(2)))}[where]
+    for i in idx:
+        ts[i] = rnd_out(rnd)
+    return {"ts": ts, "where": where, "form": rnd.choice(CUSTOM_FORMS), "n_pts": rnd.choice(["default", "len", "len"])}
+
+
+def param_container(ts, form):
+    """the caller's container of curve parameters (custom_pos): any iterable of numbers"""
+    if form == "tuple":
+        return tuple(ts)
+    if form == "numpy":
+        return np.array(ts, dtype=float)
+    if form == "generator":
+        return (t for t in ts)                   # one-shot iterable
+    if form == "numpy-scalars":
+        return [np.int64(t) if isinstance(t, int) else np.float64(t) for t in ts]
+    return list(ts)
+
 
 @st.composite
 def curve_case(draw):
@@ -1049,17 +1100,30 @@ def curve_case(draw):
     elif c < 0.03:
         deg = rnd.choice([67, 68, 70, 100])                    # C(67,33) > 2**63: binomials no longer fit a 64-bit integer
     P, style, point = control_net(rnd, (deg + 1,))
-    custom = None
-    if rnd.random() < 0.2:
+    custom, custom_order = None, "sorted"
+    if rnd.random() < 0.35:
         custom = sorted(draw(st.lists(T_IN, min_size=2, max_size=9)))
+        custom_order = rnd.choice(["sorted", "sorted", "reversed", "shuffled", "repeated"])
+        if custom_order == "reversed":
+            custom.reverse()
+        elif custom_order == "shuffled":
+            rnd.shuffle(custom)
+        elif custom_order == "repeated":        # the same parameter twice in a row: two vertices at the same place, still a chain
+            k = rnd.randrange(len(custom))
+            custom.insert(k, custom[k])
+    custom_opts = {"order": custom_order, "form": rnd.choice(CUSTOM_FORMS), "n_pts": rnd.choice(["default", "len", "len"])}
+    # parameter sequences with entries outside [0,1] handed to the export (custom_pos): have to be rejected like evaluate() rejects them
+    custom_bad = [bad_params(rnd) for _ in range(rnd.choice([1, 1, 2]))] if rnd.random() < 0.5 else []
     ts = [sig6(rnd.random()) for _ in range(rnd.randint(1, 3))]
     if deg > 16:                                # (each evaluation costs deg^2/2 vector operations)
         return {"P": P, "style": style, "ts_in": ts[:2] + draw(st.lists(T_IN, max_size=1)), "ts_out": [], "n": rnd.randint(2, 4), "n_again": 2,
-                "custom": None, "dir_seed": rnd.randrange(10 ** 6), "ctor": rnd.choice(CTORS + ["numpy-int"] * (style == "int")),
+                "custom": None, "custom_opts": custom_opts, "custom_bad": custom_bad[:1], "direct": rnd.random() < 0.3,
+                "dir_seed": rnd.randrange(10 ** 6), "ctor": rnd.choice(CTORS + ["numpy-int"] * (style == "int")),
                 "edits": [[rnd.randrange(deg + 1), point(), "rebind"]] if rnd.random() < 0.3 else None, "t_np": False, "clone": None, "recycle": False}
     return {"P": P, "style": style, "ts_in": ts + draw(st.lists(T_IN, max_size=4)), "ts_out": draw(st.lists(T_OUT, max_size=3)),
             "n": rnd.randint(2, 9), "n_again": rnd.choice([100, 101, 150]) if rnd.random() < 0.04 else rnd.randint(2, 9),
-            "custom": custom, "dir_seed": rnd.randrange(10 ** 6),
+            "custom": custom, "custom_opts": custom_opts, "custom_bad": custom_bad, "direct": rnd.random() < 0.3,
+            "dir_seed": rnd.randrange(10 ** 6),
             "ctor": rnd.choice(CTORS + ["numpy-int", "vec-int"] * (style == "int")),
             # history: control points of the already evaluated / exported curve are edited, then everything is asked again
             "edits": [[rnd.randrange(deg + 1), point(), rnd.choice(["rebind", "in-place"])] for _ in range(rnd.choice([1, 1, 2]))]
@@ -1161,13 +1225,31 @@ def fn_curve(case, ctx):
         ctx.check(ctx.close(v1, P[-1], 1e-12, scale), "curve:endpoint", f"evaluate(1) = {v1.tolist()} but the last control point is {P[-1].tolist()}")
     for t in case["ts_out"]:
         ctx.label("out-of-range")
-        expect_raises(ctx, "curve:range", (InvalidRangeArgumentError,), f"evaluate({t!r}) outside [0,1]", curve.evaluate, t)
+        expect_raises(ctx, "curve:range", (InvalidRangeArgumentError,), f"evaluate({npt(t)!r}) outside [0,1]", curve.evaluate, npt(t))
+    if case.get("direct"):
+        # the documented module-level evaluator (docstring: returns B_P(t), raises InvalidRangeArgumentError outside [0,1]) called directly
+        import mouette.splines.bezier as bezier_module
+        dc = getattr(bezier_module, "de_casteljau", None)
+        if dc is not None:
+            ctx.label("de_casteljau-direct")
+            for t in case["ts_in"][:2]:
+                ok, raw = ctx.call("curve:de_casteljau", dc, [M.Vec(*p) for p in P.tolist()], npt(t))
+                val = vec_of(raw, dim, ctx, "curve:de_casteljau", f"de_casteljau(P, {t!r})") if ok else None
+                if val is not None:
+                    ctx.check(ctx.close(val, RB.curve(P, t), 1e-12, scale), "curve:bernstein",
+                              f"de_casteljau({P.tolist()}, {t!r}) = {val.tolist()}, Bernstein form gives {RB.curve(P, t).tolist()}")
+            for t in case["ts_out"][:2]:
+                expect_raises(ctx, "curve:range", (InvalidRangeArgumentError,), f"de_casteljau(P, {npt(t)!r}) outside [0,1]", dc,
+                              [M.Vec(*p) for p in P.tolist()], npt(t))
+
+    copts = case.get("custom_opts") or {"order": "sorted", "form": "list", "n_pts": "default"}
 
     def export(custom, n_req, note=""):
         if custom:
             ts = [float(t) for t in custom]
-            ok, pl = ctx.call("curve:as_polyline", curve.as_polyline, custom_pos=list(custom))
-            what = f"as_polyline(custom_pos={custom}){note}"
+            kw = {"n_pts": len(custom)} if copts["n_pts"] == "len" else {}
+            ok, pl = ctx.call("curve:as_polyline", curve.as_polyline, custom_pos=param_container(custom, copts["form"]), **kw)
+            what = f"as_polyline({'n_pts=%d, ' % len(custom) if kw else ''}custom_pos={custom} as {copts['form']}){note}"
         else:
             ts = np.linspace(0, 1, n_req).tolist()
             ok, pl = ctx.call("curve:as_polyline", curve.as_polyline, n_req)
@@ -1192,7 +1274,26 @@ def fn_curve(case, ctx):
             got = [float(att[i]) for i in range(n)]
             ctx.check(ctx.close(got, ts, 1e-15, 1.0), "curve:polyline-attr", f"{what}: attribute t = {got}, expected {ts}")
 
+    def export_rejected(bad, note=""):
+        """a parameter outside [0,1] is rejected whichever way it reaches the curve: through custom_pos the export must not hand back a polyline
+        (the kind of exception is not specified for the export; evaluate's is InvalidRangeArgumentError)"""
+        ts = bad["ts"]
+        out = [t for t in ts if outside(t)]
+        assert out, bad
+        ctx.label("custom-out-of-range", "custom-out@" + bad["where"], "custom-bad-form=" + bad["form"], "custom-bad-n_pts=" + bad["n_pts"])
+        if all(t == t and -1e-6 <= t <= 1.0 + 1e-6 for t in out):
+            ctx.label("custom-out-by<1e-6")
+        kw = {"n_pts": len(ts)} if bad["n_pts"] == "len" else {}
+        expect_raises(ctx, "curve:custom-range", (Exception,),
+                      f"as_polyline({'n_pts=%d, ' % len(ts) if kw else ''}custom_pos={ts} as {bad['form']}) with {out} outside [0,1]{note}",
+                      curve.as_polyline, custom_pos=param_container(ts, bad["form"]), **kw)
+
+    if case["custom"]:
+        ctx.label("custom-order=" + copts["order"], "custom-form=" + copts["form"], "custom-n_pts=" + copts["n_pts"])
     export(case["custom"], case["n"])
+    for bad in case.get("custom_bad") or []:
+        export_rejected(bad)
+    # (the export that follows also shows that a rejected request leaves the curve usable)
     export(None, case.get("n_again", 3), " [second export of the same curve object]")
     # the control points (the object's and the caller's) are left alone by evaluation and export
     now = np.array([np.asarray(x, dtype=float).reshape(-1) for x in curve.pts], dtype=float)
@@ -1237,6 +1338,10 @@ def fn_curve(case, ctx):
         for t in case["ts_in"]:
             evaluate(t, stage)
         export(None, case["n"], f" [{stage}]")
+        if case["custom"]:
+            export(case["custom"], case["n"], f" [{stage}]")
+        for bad in (case.get("custom_bad") or [])[:1]:
+            export_rejected(bad, f" [{stage}]")
         for t in list(case["ts_in"]) + [0.0, 1.0, 0.0]:
             evaluate(t, stage + ", returned arrays overwritten by the caller", garble=True)
         v0, v1 = evaluate(0.0, stage), evaluate(1.0, stage)
@@ -1344,7 +1449,7 @@ def fn_patch(case, ctx):
             ctx.check(ctx.close(val, P[i, j], 1e-12, scale), "patch:corner", f"evaluate({u},{v}) = {val.tolist()} but the corner control point [{i}][{j}] is {P[i, j].tolist()}")
     for u, v in case["uv_out"]:
         ctx.label("out-of-range")
-        expect_raises(ctx, "patch:range", (InvalidRangeArgumentError,), f"evaluate({u!r},{v!r}) outside [0,1]^2", patch.evaluate, u, v)
+        expect_raises(ctx, "patch:range", (InvalidRangeArgumentError,), f"evaluate({npt(u)!r},{npt(v)!r}) outside [0,1]^2", patch.evaluate, npt(u), npt(v))
 
     def export(n1, n2, note=""):
         what = f"as_surface({n1},{n2}) of a {m}x{n} patch{note}"
